@@ -613,7 +613,7 @@ pub fn parse_tls_extension_unknown(i: &[u8]) -> IResult<&[u8], TlsExtension> {
 pub fn parse_tls_client_hello_extension(i: &[u8]) -> IResult<&[u8], TlsExtension> {
     let (i, ext_type) = be_u16(i)?;
     let (i, ext_data) = length_data(be_u16)(i)?;
-    if ext_type & 0x0f0f == 0x0a0a {
+    if ext_type & 0x0f0f == 0x0a0a && ext_type >> 8 == ext_type & 0xff {
         return Ok((i, TlsExtension::Grease(ext_type, ext_data)));
     }
     let ext_len = ext_data.len() as u16;
@@ -655,7 +655,7 @@ pub fn parse_tls_client_hello_extension(i: &[u8]) -> IResult<&[u8], TlsExtension
 pub fn parse_tls_server_hello_extension(i: &[u8]) -> IResult<&[u8], TlsExtension> {
     let (i, ext_type) = be_u16(i)?;
     let (i, ext_data) = length_data(be_u16)(i)?;
-    if ext_type & 0x0f0f == 0x0a0a {
+    if ext_type & 0x0f0f == 0x0a0a && ext_type >> 8 == ext_type & 0xff {
         return Ok((i, TlsExtension::Grease(ext_type, ext_data)));
     }
     let ext_len = ext_data.len() as u16;
@@ -691,7 +691,7 @@ pub fn parse_tls_server_hello_extension(i: &[u8]) -> IResult<&[u8], TlsExtension
 pub fn parse_tls_extension(i: &[u8]) -> IResult<&[u8], TlsExtension> {
     let (i, ext_type) = be_u16(i)?;
     let (i, ext_data) = length_data(be_u16)(i)?;
-    if ext_type & 0x0f0f == 0x0a0a {
+    if ext_type & 0x0f0f == 0x0a0a && ext_type >> 8 == ext_type & 0xff {
         return Ok((i, TlsExtension::Grease(ext_type, ext_data)));
     }
     let ext_len = ext_data.len() as u16;
